@@ -52,6 +52,7 @@ def cases(tier):
                     yield ("read", gi, vt, vs, fill, tier)
     yield ("novar",)
     yield ("templates",)
+    yield ("chain",)
     for gi in range(len(GRIDS)):
         for kinds in (("f",), ("i",), ("f", "f"), ("f", "i"), ("i", "f")):
             yield ("write", gi, kinds, tier)
@@ -347,6 +348,70 @@ def _run_write(case):
     return {"evals": evals, "nontrivial": evals, "judged": judged, "viols": viols, "outcomes": outcomes, "sample": sample}
 
 
+def _run_chain(case):
+    """read -> write -> read: what EEMSRead delivered (every DataType, with and without missing cells, zeros included), written by EEMSWrite
+    alone and next to a float field, read back with the same DataType: same shape, element kind, values and missing cells"""
+    from netCDF4 import Dataset
+    from mpilot.exceptions import MPilotError
+
+    work = snapshot.scratch_dir("c18_")
+    viols, outcomes = [], {}
+    evals = 0
+    sample = None
+    grid = (2, 3)
+    try:
+        for vt, vals in (("f8", [0.0, 1.5, 2.0, 0.0, 3.0, 100.0]), ("i4", [0, 1, 2, 0, 3, 100]), ("f8", [-1.0, -0.25, 0.0, 0.5, 1.0, 0.0])):
+            for m in (0, 1, 0b100010):
+                miss = [bool(m >> i & 1) for i in range(6)]
+                _make_template(os.path.join(work, "in.nc"), grid, {"v": (vt, vals, miss if m else None, -9999.0 if vt == "f8" else -9999),
+                                                                  "w": ("f8", [0.5] * 6, None, None)})
+                for dtype in DTYPES:
+                    for companion in (False, True):
+                        p = _program(work)
+                        args = {"InFileName": "in.nc", "InFieldName": "v"}
+                        if dtype:
+                            args["DataType"] = dtype
+                        p.add_command(p.find_command_class("EEMSRead"), "R", args)
+                        names = ["R"]
+                        if companion:
+                            p.add_command(p.find_command_class("EEMSRead"), "Wf", {"InFileName": "in.nc", "InFieldName": "w"})
+                            names.append("Wf")
+                        p.add_command(p.find_command_class("EEMSWrite"), "W", {"OutFileName": "out.nc", "OutFieldNames": names, "DimensionFileName": "in.nc", "DimensionFieldName": "v"})
+                        if os.path.exists(os.path.join(work, "out.nc")):
+                            os.remove(os.path.join(work, "out.nc"))
+                        evals += 1
+                        tag = {"nc_type": vt, "values": vals, "file_mask": miss, "DataType": dtype, "written_with_a_float_field": companion}
+                        sample = tag
+                        try:
+                            with numpy.errstate(all="ignore"):
+                                first = p.commands["R"].result.copy()
+                                p.commands["W"].result
+                        except MPilotError as exc:
+                            outcomes["chain:first-read-or-write-raised:" + type(exc).__name__] = outcomes.get("chain:first-read-or-write-raised:" + type(exc).__name__, 0) + 1
+                            continue  # (e.g. the positive / fuzzy checks: judged by the read family)
+                        res = _eems_read(work, "out.nc", "R", dtype, None)
+                        if res[0] == "err":
+                            viols.append(V("C18:chain:reread-raised:%s" % type(res[1]).__name__, "re-reading what EEMSRead(DataType=%r) delivered and EEMSWrite wrote raised %s" % (
+                                dtype, str(res[1]).split("\n")[0][:160]), **tag))
+                            continue
+                        b = res[1]
+                        fm, bm = numpy.ma.getmaskarray(first), numpy.ma.getmaskarray(b)
+                        dk = (dtype or "default").replace(" ", "")
+                        if b.shape != first.shape or b.dtype.kind != first.dtype.kind:
+                            viols.append(V("C18:chain:shape-or-kind-differs:%s" % dk, "read %r %s, after write and re-read %r %s" % (first.shape, first.dtype, b.shape, b.dtype), **tag))
+                        elif (fm != bm).any():
+                            viols.append(V("C18:chain:missing-cells-differ:%s" % dk, "missing cells %r after the round trip, were %r (values %r)" % (
+                                bm.ravel().tolist(), fm.ravel().tolist(), numpy.ma.getdata(first).ravel().tolist()), **tag))
+                        elif not numpy.array_equal(numpy.ma.getdata(b)[~bm], numpy.ma.getdata(first)[~fm]):
+                            viols.append(V("C18:chain:values-differ:%s" % dk, "values %r after the round trip, were %r" % (numpy.ma.getdata(b).ravel().tolist(), numpy.ma.getdata(first).ravel().tolist()), **tag))
+                        else:
+                            outcomes["chain:ok:%s" % dk] = outcomes.get("chain:ok:%s" % dk, 0) + 1
+    finally:
+        import shutil
+        shutil.rmtree(work, ignore_errors=True)
+    return {"evals": evals, "nontrivial": evals, "judged": evals, "viols": viols[:30], "outcomes": outcomes, "sample": sample}
+
+
 TEMPLATE_STYLES = ("plain", "packed", "packed-both", "fill", "fill-nan", "int", "unsigned", "attrs", "descending",
                    "format:NETCDF3_CLASSIC", "format:NETCDF3_64BIT_OFFSET", "format:NETCDF4_CLASSIC")  # the file flavour of the template is its own business
 
@@ -465,6 +530,8 @@ def run(case):
     case = tuple(case)
     if case[0] == "templates":
         return _run_templates(case)
+    if case[0] == "chain":
+        return _run_chain(case)
     if case[0] == "read":
         return _run_read(case)
     if case[0] == "novar":
